@@ -75,6 +75,15 @@ def gen_program(rnd, pid, small=False):
             th.append(['sched_abs', c, t, rnd.choice([0, 256, 512, 1024, 4096])])
         else:
             th.append(['sched', c, t, rnd.choice(DELTAS)])
+    for t in top:
+        # (only plain functions: a finished routine that is scheduled again is awakened without running its body,
+        # which the task wrappers cannot observe)
+        if tasks[t]['kind'] == 'fn' and rnd.random() < 0.35:
+            # schedule the same task object again (sched on a pending task moves its entry, see C09)
+            th = rnd.choice(threads)
+            if rnd.random() < 0.6:
+                th.append(['sleep', rnd.choice([1, 128, 256, 512])])
+            th.append(['sched', tclock[t], t, rnd.choice(DELTAS)])
     if rnd.random() < 0.12 and len(top) >= 2:
         # motif: two tasks due at the same instant on one clock, the first one clears that clock
         x, y = top[0], top[1]
@@ -155,7 +164,7 @@ def run(ctx):
     # 2. executions of the real clocks under the controlled scheduler, validated by the L1 monitor
     rnd = random.Random(ctx.seed)
     progs = []
-    nprog = 2500 if thorough else 260
+    nprog = 2500 if thorough else 220
     pid = 0
     for i in range(nprog):
         p = gen_program(rnd, pid)
@@ -207,7 +216,7 @@ def run(ctx):
     ctx.assumptions += ['interleavings are explored at lock granularity under virtual time (cosched); the CPython/OS scheduler '
                         'itself and wall-clock accuracy are not exercised',
                         'times are dyadic (multiples of 1/1024 s) so float arithmetic is exact',
-                        'a task object is scheduled at most once while pending (re-adding moves the entry, see C09)']
+                        'scheduling a task object that is still pending moves its entry (one wake-up per final scheduling, see C09)']
 
 
 def design(ctx):
